@@ -43,3 +43,16 @@ def seeded_fracs(w, seed, k, exclude=()):
     pool = [f for f in range(w + 1) if f not in exclude]
     r.shuffle(pool)
     return sorted(pool[:k])
+
+
+def interleave(jobs, block=12, base=3):
+    """Priorities that interleave the kinds of obligations (second component of the harness name): when the run budget
+    ends early, a part of every kind has been decided instead of all of the first kinds and none of the last."""
+    seen = {}
+    for j in jobs:
+        if j.prio != 5:
+            continue
+        kind = j.name.split("_")[1] if "_" in j.name else j.name
+        i = seen.get(kind, 0)
+        seen[kind] = i + 1
+        j.prio = base + min(1.99, (i // block) * 0.02)   # stays below the default priority 5
